@@ -23,6 +23,10 @@ LOOKUPS = {
 NAME_CONV = {"ENUM_NO_SUCH_ITEM": 1}
 LEX_FILES = ("generated/expscan.c", "express/lexact.c", "express/expscan.l")
 # frozen floors (sites confirmed by reading on the pinned tree)
+# diagnostics whose arguments do not quote the input at all (one line of reason each)
+NOT_INPUT_QUOTES = {
+    "WARN_UNSUPPORTED_LANG_FEAT": "`Unsupported language feature (%s) at %s:%d` names the feature and the tool's own source location (__FILE__, __LINE__)",
+}
 FLOOR_LOOKUP = 10
 FLOOR_LEX = 4
 
@@ -236,6 +240,8 @@ def run(prog, res, tab):
                     isfile = any(x["k"] == "Ref" and x.get("dk") == "param" for x in walk(a)) and cname == "INCLUDE_FILE"
                     if cname == "INCLUDE_FILE":
                         break   # handled by the look-up rule below (fopen)
+                    if cname in NOT_INPUT_QUOTES and inner is not None and (inner["k"] in ("Str", "Int") or "val" in inner):
+                        continue
                     n_lex += 1
                     ok = tokenish or in_guard
                     res.add("R4.lexical", key + "|" + c["text"], fn.where(call), ok,
